@@ -15,7 +15,7 @@ from mc.refmodel import graphs as G
 from mc.spaces import chunks
 
 ID = "C03"
-ALPHS = ([0, 1, -1], [0, 1, -2])
+ALPHS = ([0, 1, -1], [0, 1, -2], [0, 1e-170, -1e-200], [0, 2 ** 32, -2 ** 33], [0, 1e200, -1e-300])
 
 
 def matrix_from_case(case):
@@ -41,6 +41,7 @@ def units(tier, seed):
             n = len(alph) ** nentries(p, True)
             for lo, hi in chunks(0, n, 8 if p == 3 else 1):
                 out.append({"stage": "full", "p": p, "alph": alph, "diag": True, "lo": lo, "hi": hi})
+    out.append({"stage": "large"})
     # p = 4, zero diagonal: all 4096 patterns under three sign labelings (quick) ...
     for lab in ("bin", "neg", "cancel"):
         for lo, hi in chunks(0, 4096, 4):
@@ -132,9 +133,86 @@ def _order_of(M):
         return None
 
 
+def large_cases():
+    """'all sizes p >= 1': long chains in both labellings, a long cycle, a wide star, a chain with a negative self-loop at the end."""
+    out = []
+    for p in (1200, 2500):
+        for kind in ("chain-up", "chain-down", "cycle", "star", "chain-selfloop"):
+            out.append({"p": p, "kind": kind})
+    return out
+
+
+def large_matrix(case):
+    p, kind = case["p"], case["kind"]
+    A = np.zeros((p, p))
+    ix = np.arange(p - 1)
+    if kind in ("chain-up", "cycle", "chain-selfloop"):
+        A[ix, ix + 1] = -1.5
+    if kind == "chain-down":
+        A[ix + 1, ix] = 2.0
+    if kind == "cycle":
+        A[p - 1, 0] = -0.5
+    if kind == "star":
+        A[0, 1:] = 1.0
+    if kind == "chain-selfloop":
+        A[p - 1, p - 1] = -1.0
+    return A, kind in ("cycle", "chain-selfloop")
+
+
+def check_large(case):
+    A, cyclic = large_matrix(case)
+    d = "%s on %d nodes" % (case["kind"], case["p"])
+    fails = []
+    try:
+        r = U.is_dag(A.copy())
+        if bool(r) != (not cyclic):
+            fails.append(("is_dag:large", "is_dag(%s) = %r" % (d, r)))
+    except Exception as e:
+        fails.append(("is_dag:large-raises", "is_dag(%s) raised %r" % (d, e)))
+    try:
+        o = U.topological_ordering(A.copy())
+        if cyclic:
+            fails.append(("topo:large-no-error", "topological_ordering(%s) returned an ordering for a cyclic graph" % d))
+        else:
+            o = [int(x) for x in o]
+            pos = {v: k for k, v in enumerate(o)}
+            ii, jj = np.nonzero(A)
+            if sorted(o) != list(range(case["p"])) or any(pos[int(i)] >= pos[int(j)] for i, j in zip(ii, jj)):
+                fails.append(("topo:large-invalid", "topological_ordering(%s) is not a valid ordering" % d))
+    except ValueError:
+        if not cyclic:
+            fails.append(("topo:large-error-on-dag", "topological_ordering(%s) raised ValueError for an acyclic graph" % d))
+    except Exception as e:
+        fails.append(("topo:large-raises", "topological_ordering(%s) raised %r" % (d, e)))
+    for name, f in (("LGANM", lambda: sempler.LGANM(A.copy(), np.zeros(case["p"]), np.ones(case["p"]))),
+                    ("ANM", lambda: sempler.ANM(A.copy(), [None] * case["p"], [sempler.noise.normal()] * case["p"]))):
+        try:
+            f()
+            if cyclic:
+                fails.append((name + ":large-accepts-cyclic", "%s accepted %s" % (name, d)))
+        except ValueError:
+            if not cyclic:
+                fails.append((name + ":large-rejects-acyclic", "%s raised ValueError for %s" % (name, d)))
+        except Exception as e:
+            fails.append((name + ":large-raises", "%s(%s) raised %r" % (name, d, e)))
+    return fails
+
+
 def run_unit(unit):
     acc = Acc()
     cases = []
+    if unit["stage"] == "large":
+        for case in large_cases():
+            f = check_large(case)
+            acc.states += 1
+            acc.transitions += 4
+            acc.traces += 1
+            acc.nontrivial += 1
+            acc.extra["large_graphs"] += 1
+            acc.outcome(["large", case["kind"], bool(f)])
+            for sig, msg in f:
+                acc.fail("large", case, sig, msg)
+        return acc.out()
     if unit["stage"] == "full":
         for code in range(unit["lo"], unit["hi"]):
             cases.append({"p": unit["p"], "alph": unit["alph"], "code": code, "diag": unit["diag"]})
@@ -143,7 +221,8 @@ def run_unit(unit):
             cases.append(pattern4_case(unit["lab"], code))
     for case in cases:
         M = case["M"] if "M" in case else matrix_from_case(case)
-        for dtype in ("float", "int"):
+        intable = all(float(x).is_integer() and abs(x) < 2 ** 62 for r in M for x in r)
+        for dtype in (("float", "int") if intable else ("float",)):
             fails, cyclic = check_matrix(M, dtype)
             acc.states += 1
             acc.transitions += 5
@@ -162,6 +241,8 @@ def run_unit(unit):
 
 
 def replay(kind, case):
+    if kind == "large":
+        return check_large(case)
     fails, _ = check_matrix(case["M"], case["dtype"])
     return fails
 
@@ -169,7 +250,7 @@ def replay(kind, case):
 def describe(tier, seed):
     return {
         "technique": "exhaustive small-scope input enumeration on the real code vs DFS cycle oracle",
-        "rule": "every square matrix over {0,1,-1} and {0,1,-2} incl. diagonal for p<=3; all 4096 zero-diagonal "
+        "rule": "every square matrix over {0,1,-1}, {0,1,-2}, {0,1e-170,-1e-200}, {0,2^32,-2^33}, {0,1e200,-1e-300} incl. diagonal for p<=3; chains / cycle / star on 1200 and 2500 nodes; all 4096 zero-diagonal "
                 "patterns at p=4 under bin/neg/cancel sign labelings (thorough: every zero-diagonal 4x4 matrix over "
                 "{0,1,-1} and {0,2,-1}); each as float64 and int64; a case is non-trivial when it has >=2 non-zero "
                 "entries and a negative weight; 5 library calls per case (is_dag, topological_ordering, LGANM, ANM, "
